@@ -167,6 +167,20 @@ class C13(runner.Check):
 		qstyle = "onehot" if onehot_pool else r.choice(["dirichlet", "mixed", "grid",
 			"near", "mixed"])
 		pool = [_gen_motif(r, w, qstyle) for w in lens]
+		if onehot_pool and r.chance(0.6):
+			# seqlets containing unknown (all-zero, "N") columns, and twins that
+			# differ from another seqlet only by N-versus-A
+			for _ in range(r.randint(1, 3)):
+				src = copy.deepcopy(pool[r.randint(0, len(pool) - 1)])
+				w = len(src[0])
+				if w < 2:
+					continue
+				cols = [j for j in range(w) if src[0][j] == 1.0] or list(range(w))
+				j = r.choice(cols)
+				for i in range(4):
+					src[i][j] = 0.0
+				pool.append(src)
+			nP = len(pool)
 		nb = r.choice([10, 20, 50, 100])
 		cfg = {"n_score_bins": nb, "n_median_bins": r.choice([50, 1000]),
 			"n_target_bins": r.choice([None, 10, 100]),
